@@ -8,9 +8,18 @@ import lib_fsm
 import vlib
 
 AREA = "Fsm"
-THEOREMS = []
+THEOREMS = [("Arc.Fsm.PropsC22", "C22_restore_snapshot_guarded"),
+            ("Arc.Fsm.PropsC22", "C22_restore_snapshot_iff"),
+            ("Arc.Fsm.PropsC22", "C22_prefix_replay_guarded"),
+            ("Arc.Fsm.PropsC22", "C22_batch_atomic"),
+            ("Arc.Fsm.PropsC22", "C22_indexes_agree_guarded"),
+            ("Arc.Fsm.PropsC22", "C22_auth_indexes_agree"),
+            ("Arc.Fsm.PropsC22", "C22_tokens_valid_guarded"),
+            ("Arc.Fsm.PropsC22", "C22_restore_token_refuted"),
+            ("Arc.Fsm.PropsC22", "C22_file_index_refuted"),
+            ("Arc.Fsm.PropsC22", "C22_prefix_replay_refuted")]
 MODULES = ["Arc.Fsm.PropsC22"]
-EXTRA = ["theories/Fsm/Tie.vo"]
+EXTRA = ["theories/Fsm/Tie.vo", "theories/Fsm/PropsC22.vo"]
 TIE_NAME = lib_fsm.TIE_NAME["C22"]
 FAMILIES = ["file", "file", "token", "token", "rbac", "rbac", "mixed", "mixed", "node"]
 
@@ -20,7 +29,7 @@ def warm():
 
 
 def run(res, tier, seed):
-    lib_fsm.run_property(res, "C22", tier, seed, THEOREMS, MODULES, EXTRA, FAMILIES, 450, 6000, dump_all=False)
+    lib_fsm.run_property(res, "C22", tier, seed, THEOREMS, MODULES, EXTRA, FAMILIES, 380, 6000, dump_all=False)
 
 
 def replay(res, path):
